@@ -73,3 +73,11 @@ class WrapGreenletPass( BasePass ):
     top._dag.final_upblks    = new_upblks
     top._dag.all_constraints = new_constraints
     top._dag.blk_greenlet_mapping = blk_greenlet_mapping
+
+    # The constraints that involve top level callee methods (used by the
+    # open-loop scheduler) refer to update blocks as well
+
+    if hasattr( top._dag, "top_level_callee_constraints" ):
+      top._dag.top_level_callee_constraints = {
+        ( blk_greenlet_mapping.get( x, x ), blk_greenlet_mapping.get( y, y ) )
+          for (x, y) in top._dag.top_level_callee_constraints }
